@@ -52,6 +52,15 @@ Theorem C17_finished_absorbs : forall o e,
 Proof. exact finished_absorbs. Qed.
 Print Assumptions C17_finished_absorbs.
 
+(* ... and (round 7 table) every cancel reject: it returns False, status and ids stay as they are *)
+Theorem C17_finished_ignores_reject : forall legacy o clid orig st,
+  is_finished o = true ->
+  let ob := process_cancel_rej_report legacy o (RRej clid orig st) in
+  snd ob = Ok false /\ o_status (fst ob) = o_status o /\ o_senum (fst ob) = o_senum o
+  /\ o_clord (fst ob) = o_clord o /\ o_orig (fst ob) = o_orig o.
+Proof. exact finished_ignores_reject. Qed.
+Print Assumptions C17_finished_ignores_reject.
+
 (* ClOrdID chain: the root of root--k is root; every id ever built is root--k with k = the counter,
    which grows by exactly one per request, so ids are pairwise distinct (fresh) *)
 Theorem C17_clord_root_chain : forall root k, root <> [] -> clord_root (clord_id_of root k) = root.
